@@ -1449,12 +1449,10 @@ class Comparator(BinaryOperator):
             OperationResult(
                 second_val.bindings, not self.apply_operation(second_val), self
             )
-            for first_val in filter(
-                lambda v: v.is_true, first_operand._evaluate__(sources, parent=self)
-            )
-            for second_val in filter(
-                lambda v: v.is_true,
-                second_operand._evaluate__(first_val.bindings, parent=self),
+            # an operand contributes its value, whatever the truth value of that value is (0, "", an empty or falsy object)
+            for first_val in first_operand._evaluate__(sources, parent=self)
+            for second_val in second_operand._evaluate__(
+                first_val.bindings, parent=self
             )
         )
 
